@@ -247,6 +247,24 @@ def explore(ctx, scale=1.0):
                 ctx.corr_diff("create", {"type": t, "version": v}, json.dumps(ans)[:400], json.dumps(real)[:400])
     except Exception as ex:
         ctx.broken.append({"kind": "driver", "detail": str(ex)[:300]})
+    # create is a function of (type, version): what a caller does to one created object (editing a list-valued default in place)
+    # must not show in the next one
+    for t in gen.BLOCK_TYPES:
+        for v in (None, 7.6):
+            try:
+                first = mappyfile.create(t, v)
+                snap = json.dumps(core.enc(dict(first)))
+                for k, val in list(first.items()):
+                    if isinstance(val, list):
+                        val.append(99999); val[0] = "edited"
+                    elif isinstance(val, dict):
+                        val["edited"] = 1
+                again = json.dumps(core.enc(dict(mappyfile.create(t, v))))
+            except Exception as ex:
+                ctx.violation(f"create-raises:{t}", f"create({t!r}, {v}) raises {type(ex).__name__}", {"type": t, "version": v}); continue
+            ctx.case(("create-history", t, v), True); ctx.count("create-history")
+            if again != snap:
+                ctx.violation(f"create-history:{t}", f"create({t!r}, {v}) returns other defaults after a caller edited an earlier created object in place", {"type": t, "version": v, "first": snap[:400], "again": again[:400]})
     for t in gen.BLOCK_TYPES:
         for v in VERSIONS:
             ctx.case(("create", t, v), True); ctx.count("create")
